@@ -536,6 +536,49 @@ fn nested(o: &mut Outcome, rng: &mut Rng, ctx: &Ctx, home: &Path, thorough: bool
     (direct, distinct)
 }
 
+/// Two roots in different directories whose configuration files hold the SAME non-empty `ignore` list (the workspace shape with
+/// copied configuration files): the patterns of a list are relative to the directory of the file that holds it, so each root's own
+/// `gen.rs` is ignored, alone and in a joint run in either order.
+fn ignore_twins(o: &mut Outcome, rng: &mut Rng, ctx: &Ctx, home: &Path, thorough: bool) -> (u64, u64) {
+    let mut direct = 0u64;
+    let mut distinct = 0u64;
+    for k in 0..(if thorough { 6 } else { 2 }) {
+        let pat = *rng.pick(&["gen.rs", "gen.rs\", \"other.rs", "/gen.rs"]);
+        let toml = format!("ignore = [\"{}\"]\n", pat);
+        let dirs = [format!("ig{}/a/src", k), format!("ig{}/b/deep/src", k), format!("ig{}/c/src", k)];
+        let items: Vec<Item> = dirs.iter().enumerate().map(|(i, d)| Item { kind: "ignore-twin", dir: d.clone(), file: "lib.rs".into(), text: format!("mod   gen ;\n{}", body(rng, &format!("g{}x{}", k, i))), toml: if i < 2 { Some(toml.clone()) } else { None }, extra: vec![("gen.rs".to_string(), body(rng, &format!("g{}y{}", k, i)))], missing: false }).collect();
+        let shared = ctx.fresh("ig");
+        materialise(&items, &shared);
+        let n = items.len();
+        let mut single_jobs: Vec<(usize, usize)> = vec![];
+        for m in 0..MODES.len() {
+            for i in 0..n {
+                single_jobs.push((m, i));
+            }
+        }
+        let singles_flat: Vec<RunOut> = par_map(&single_jobs, |(m, i)| invoke(ctx, &items, &[*i], *m, &shared, home, None, &[]));
+        let singles: Vec<Vec<RunOut>> = (0..MODES.len()).map(|m| singles_flat[m * n..(m + 1) * n].to_vec()).collect();
+        let lines: Vec<Vec<usize>> = vec![vec![0, 1], vec![1, 0], vec![0, 2], vec![2, 0], vec![0, 1, 2], vec![2, 1, 0], vec![1, 2, 0]];
+        let joint_jobs: Vec<(usize, usize)> = (0..MODES.len()).flat_map(|m| (0..lines.len()).map(move |l| (m, l))).collect();
+        let joints: Vec<RunOut> = par_map(&joint_jobs, |(m, l)| invoke(ctx, &items, &lines[*l], *m, &shared, home, None, &[]));
+        for ((m, l), j) in joint_jobs.iter().zip(joints.iter()) {
+            if j.timed_out || singles[*m].iter().any(|r| r.timed_out) {
+                o.count("timeout");
+                continue;
+            }
+            direct += 1;
+            distinct += 1;
+            o.count(&format!("ignore-twins:{}", MODES[*m].0));
+            for (sig, detail) in compare(*m, &lines[*l], &singles[*m], j, &items) {
+                let names: Vec<String> = lines[*l].iter().map(|i| items[*i].rel()).collect();
+                fail(o, &sig, format!("{} [roots in different directories with the same ignore list, mode {}, command line {:?}] {}", sig, MODES[*m].0, names, detail), json!({"set": set_json(&items), "mode": MODES[*m].0, "command_line": names}));
+            }
+        }
+        let _ = std::fs::remove_dir_all(&shared);
+    }
+    (direct, distinct)
+}
+
 pub fn run(tier: &str, seed: u64, out: &Path) -> i32 {
     pool::install_panic_hook();
     let mut o = Outcome::new("C15", tier, seed);
@@ -845,6 +888,11 @@ pub fn run(tier: &str, seed: u64, out: &Path) -> i32 {
     let (d3, n3) = nested(&mut o, &mut rng, &ctx, &home, thorough);
     direct += d3;
     distinct += n3;
+
+    // ---- roots in different directories with the same ignore list
+    let (d4, n4) = ignore_twins(&mut o, &mut rng, &ctx, &home, thorough);
+    direct += d4;
+    distinct += n4;
 
     // ---- enumerated probes (seed-independent)
     // F3: two overrides on one --config: applied in the iteration order of a HashMap
